@@ -66,16 +66,16 @@ func (e *Env) Quick() bool { return e.Tier != "thorough" }
 
 // Phase is one sub-workload of a property.
 type Phase struct {
-	Name        string
-	N           func(tier string) int
-	Run         func(env *Env, idx int) Result
-	Race        bool          // needs the race-instrumented worker binary
-	Chroot      bool          // worker chroots into its scratch directory
-	Unpriv      bool          // worker drops to uid/gid 65534 after the chroot
-	Solo        bool          // every case runs in a process of its own
-	Shards      int           // max parallel workers (0 = default)
-	Exhaustive  bool          // the phase enumerates a finite space completely
-	CaseTimeout time.Duration // watchdog per case (0 = default 120 s)
+	Name         string
+	N            func(tier string) int
+	Run          func(env *Env, idx int) Result
+	Race         bool          // needs the race-instrumented worker binary
+	Chroot       bool          // worker chroots into its scratch directory
+	Unpriv       bool          // worker drops to uid/gid 65534 after the chroot
+	Solo         bool          // every case runs in a process of its own
+	Shards       int           // max parallel workers (0 = default)
+	Exhaustive   bool          // the phase enumerates a finite space completely
+	CaseTimeout  time.Duration // watchdog per case (0 = default 120 s)
 	ThoroughOnly bool
 	// CrashVerdict decides what a dead or hung worker means for this phase.
 	// kind is "crash" or "hang"; detail is the tail of the worker's stderr.
